@@ -483,7 +483,7 @@ func checkJoins(p *Program, r *Report) {
 		for _, j := range joins {
 			if ex, ok := j.Common().Args[1].(*ssa.Extract); ok {
 				if cl, ok := ex.Tuple.(*ssa.Call); ok {
-					if g := staticCallee(cl.Common()); g != nil && g.Name() == "escapeListConditionally" {
+					if g := staticCallee(cl.Common()); g != nil && cname(g) == "escapeListConditionally" {
 						reentry = j
 					}
 				}
@@ -500,10 +500,10 @@ func checkJoins(p *Program, r *Report) {
 			}
 			n++
 			v := ret.Results[0]
-			if cl, ok := v.(*ssa.Call); ok && staticCallee(cl.Common()) != nil && staticCallee(cl.Common()).Name() == "join" {
+			if cl, ok := v.(*ssa.Call); ok && staticCallee(cl.Common()) != nil && cname(staticCallee(cl.Common())) == "join" {
 				// second operand: escapeList over the else list
 				a1, ok := cl.Common().Args[1].(*ssa.Call)
-				if !ok || staticCallee(a1.Common()) == nil || staticCallee(a1.Common()).Name() != "escapeList" {
+				if !ok || staticCallee(a1.Common()) == nil || cname(staticCallee(a1.Common())) != "escapeList" {
 					okRet = false
 				}
 			} else {
